@@ -233,6 +233,46 @@ fn main() {
             }
         }
         res.cov("connection_option_requests", conn_n);
+        // family: a chunked request whose TRAILER section carries fields named like the proxy-owned headers
+        let mut trailer_n = 0u64;
+        for route in ["signed", "exempt", "nokey"] {
+            w.set_key(if route == "nokey" { None } else { Some(K1) });
+            for (clabel, rec, hidx, elevated) in &callers {
+                for declared in [false, true] {
+                    for sp in 0..2usize {
+                        let (method, target) = if route == "exempt" { ("PUT", "/vmAgentLog") } else { ("POST", "/metadata/instance?api-version=2021-02-01") };
+                        let mut raw = format!("{method} {target} HTTP/1.1\r\nHost: metadata\r\nMetadata: true\r\nTransfer-Encoding: chunked\r\n").into_bytes();
+                        if declared {
+                            raw.extend_from_slice(b"Trailer: x-ms-azure-host-claims, x-ms-azure-host-date, x-ms-azure-host-authorization\r\n");
+                        }
+                        raw.extend_from_slice(b"\r\n8\r\nlog line\r\n0\r\n");
+                        let mut spoofed: Vec<Vec<u8>> = Vec::new();
+                        for (i, name) in owned.iter().enumerate() {
+                            let val = format!("SPOOFED-TRAILER-{i}");
+                            spoofed.push(val.clone().into_bytes());
+                            raw.extend_from_slice(format!("{}: {val}\r\n", spell(name, sp * 2)).as_bytes());
+                        }
+                        raw.extend_from_slice(b"\r\n");
+                        let s = send_one(&w, next_port(), rec, *hidx, &raw);
+                        evals += 1;
+                        trailer_n += 1;
+                        let case = json!({"family": "trailer-fields", "route": route, "caller": clabel, "trailer_header_declares_them": declared, "spelling": sp * 2});
+                        nontrivial.insert(case.to_string());
+                        if s.status != Ok(200) || s.at_host.len() != 1 {
+                            res.violation("not-relayed", &format!("authorized chunked request with trailer fields not relayed exactly once: status {:?}, {} requests at host", s.status, s.at_host.len()), case.clone());
+                            continue;
+                        }
+                        relayed += 1;
+                        let mut sent_names: Vec<String> = vec!["host".into(), "metadata".into(), "transfer-encoding".into()];
+                        if declared {
+                            sent_names.push("trailer".into());
+                        }
+                        judge(&mut res, &s.at_host[0], *elevated, s.t_before, s.t_after, route == "signed", &spoofed, &sent_names, &case);
+                    }
+                }
+            }
+        }
+        res.cov("trailer_field_requests", trailer_n);
         // family: requests on one kept-alive client connection while the host closes its side after each answer
         // (whatever the proxy does to get a later request through, what arrives is judged like any relayed request)
         let closing: vcommon::rawhttp::Responder = std::sync::Arc::new(|_m: &Msg, _c, _i| Action::ReplyClose(vec![simple_response(200, &[], b"ok")]));
@@ -318,7 +358,7 @@ fn main() {
         }
         res.cov(
             "rule",
-            format!("full product: copies of each of the three proxy-owned header names in {{0,1,2}}^3 x 3 spellings (alternating between copies) x {{plausible, garbage}} values x {{elevated caller -> WireServer, non-elevated -> IMDS}} x routes {{signed, signature-exempt upload, no key latched}}{}; each request on a fresh attributed connection; + Connection / Proxy-Connection headers nominating the proxy-owned names (4 values x with/without client copies x signed/no key x 2 callers); + 3 requests on one kept-alive connection while the host closes its side after every answer (later requests carry client copies; whatever reaches the host is judged); non-trivial = at least one client-supplied copy", if thorough { " + requests at wall-clock offsets 0/1/60/120/180/300 s (consecutive gaps 1, 59, 60, 60, 120 s) for the date header" } else { " (quick: garbage values only with lower-case spelling)" }),
+            format!("full product: copies of each of the three proxy-owned header names in {{0,1,2}}^3 x 3 spellings (alternating between copies) x {{plausible, garbage}} values x {{elevated caller -> WireServer, non-elevated -> IMDS}} x routes {{signed, signature-exempt upload, no key latched}}{}; each request on a fresh attributed connection; + Connection / Proxy-Connection headers nominating the proxy-owned names (4 values x with/without client copies x signed/no key x 2 callers); + chunked requests whose trailer section carries fields named like the proxy-owned headers (3 routes x 2 callers x declared/undeclared x 2 spellings); + 3 requests on one kept-alive connection while the host closes its side after every answer (later requests carry client copies; whatever reaches the host is judged); non-trivial = at least one client-supplied copy", if thorough { " + requests at wall-clock offsets 0/1/60/120/180/300 s (consecutive gaps 1, 59, 60, 60, 120 s) for the date header" } else { " (quick: garbage values only with lower-case spelling)" }),
         );
     } else {
         // ---------------- C04 end to end ----------------
